@@ -101,7 +101,7 @@ def is_generator(h: ast.AST) -> bool:
     return any(isinstance(n, (ast.Yield, ast.YieldFrom)) for n in walk_no_nested(h))
 
 
-def inlinable(h: ast.AST, allow_generator: bool = False) -> bool:
+def inlinable(h: ast.AST, allow_generator: bool = False, allow_cm: bool = False) -> bool:
     if not isinstance(h, ast.FunctionDef):
         return False
     if is_generator(h):
@@ -116,7 +116,13 @@ def inlinable(h: ast.AST, allow_generator: bool = False) -> bool:
     a = h.args
     if a.vararg or a.kwarg or a.posonlyargs:
         return False
-    if any(not (isinstance(d, ast.Name) and d.id in ("staticmethod", "classmethod")) for d in h.decorator_list):
+    def plain(d: ast.AST) -> bool:
+        if isinstance(d, ast.Name) and d.id in ("staticmethod", "classmethod"):
+            return True
+        # @contextmanager is read through only where the helper is used as `with h(..) as v:` (the caller says so)
+        return allow_cm and ast.unparse(d).split(".")[-1] == "contextmanager"
+
+    if any(not plain(d) for d in h.decorator_list):
         return False  # a decorator (cache, property, click command ...) changes what a call does: never read through it
     if any(isinstance(n, (ast.Await, ast.Global, ast.Nonlocal)) for n in walk_no_nested(h)):
         return False
@@ -420,8 +426,9 @@ def _expand(fi: FuncInfo, caller_names: set[str], st: ast.stmt, select: Callable
     else:
         return None
     h = _helper_of(fi, call)
+    st_orig = st
     eager = getattr(st, "_eager_ok", False)
-    if h is None or not inlinable(h.node, allow_generator=eager) or not select(h, call, st):
+    if h is None or not inlinable(h.node, allow_generator=eager, allow_cm=getattr(st, "_cm_ok", False)) or not select(h, call, st):
         return None
     gen = is_generator(h.node)
     if gen and not (eager and len(targets) == 1 and isinstance(targets[0], ast.Name)):
@@ -441,9 +448,12 @@ def _expand(fi: FuncInfo, caller_names: set[str], st: ast.stmt, select: Callable
                 if isinstance(v, ast.Yield) and yhook is not None:
                     var, cond, then = yhook
                     tgt = ast.Name(id=var, ctx=ast.Store()) if isinstance(var, str) else clone(var)
+                    tgt._caller_stmt = True  # type: ignore[attr-defined]
                     a = ast.Assign(targets=[tgt], value=v.value if v.value is not None else ast.Constant(value=None))
                     if isinstance(tgt, ast.Name) and tgt.id == "_":
                         a = ast.Expr(value=a.value)  # (`for _ in gen()`: the item is only evaluated)
+                    elif ast.unparse(tgt) == ast.unparse(a.value):
+                        a = ast.Pass()  # yields its locals into targets of the same names: nothing to bind
                     if cond is None:
                         i = ast.If(test=ast.Constant(value=True), body=clone(list(then)), orelse=[])
                         body_ = i.body
@@ -541,6 +551,15 @@ def _expand(fi: FuncInfo, caller_names: set[str], st: ast.stmt, select: Callable
             return v.elts[i] if isinstance(v, ast.Tuple) and len(v.elts) == len(tg_names) else None
         if rets and all(isinstance(elem(r), ast.Name) and elem(r).id == tn for r in rets):  # type: ignore[union-attr]
             handed_back.add(tn)
+    # a generator / context manager that yields its own locals into caller targets of the same names (`with h() as (fd, path)`
+    # where h does `yield fd, path`): those locals are the caller's
+    yh = getattr(st_orig, "_yield_body", None)
+    if yh is not None and not isinstance(yh[0], str):
+        tnames = [e.id for e in (yh[0].elts if isinstance(yh[0], ast.Tuple) else [yh[0]]) if isinstance(e, ast.Name)]
+        for y in [n for n in ast.walk(h.node) if isinstance(n, ast.Yield) and n.value is not None]:
+            ynames = [e.id for e in (y.value.elts if isinstance(y.value, ast.Tuple) else [y.value]) if isinstance(e, ast.Name)]
+            if ynames == tnames:
+                handed_back |= set(tnames) & helper_locals
     for nm in sorted(helper_locals):
         if nm in same_def or nm in handed_back:
             continue
@@ -573,6 +592,11 @@ def _expand(fi: FuncInfo, caller_names: set[str], st: ast.stmt, select: Callable
         prologue.append(asg)
 
     class R(ast.NodeTransformer):
+        def visit(self, node):  # statements / targets of the CALLER that were placed into the body keep the caller's names
+            if getattr(node, "_caller_stmt", False):
+                return node
+            return super().visit(node)
+
         def visit_Name(self, n: ast.Name):  # noqa: N802
             if n.id in subst and isinstance(n.ctx, ast.Load):
                 return ast.copy_location(clone(subst[n.id]), n)
@@ -1043,6 +1067,64 @@ def inline_helpers(fi: FuncInfo, select: Callable[[FuncInfo, ast.Call, ast.stmt]
                             stmts[idx + 1] = Sub().visit(stmts[idx + 1])
                             changed = True
                             continue
+                # `x = next(gen(..), D)` followed by `if x is not D: <leave>`: only the first item is ever taken and taking it leaves -
+                # the generator's own code with `x = <yielded>; <leave>` where it yields, then `x = D`
+                if isinstance(st, ast.Assign) and len(st.targets) == 1 and isinstance(st.targets[0], ast.Name) and isinstance(st.value, ast.Call) and isinstance(st.value.func, ast.Name) and st.value.func.id == "next" and len(st.value.args) == 2 and isinstance(st.value.args[0], ast.Call) and idx + 1 < len(stmts) and isinstance(stmts[idx + 1], ast.If):
+                    ghn = _helper_of(view, st.value.args[0])
+                    nx = stmts[idx + 1]
+                    xname = st.targets[0].id
+                    dtxt = ast.unparse(st.value.args[1])
+                    t = nx.test
+                    pol = None
+                    if isinstance(t, ast.Compare) and len(t.ops) == 1 and isinstance(t.left, ast.Name) and t.left.id == xname and ast.unparse(t.comparators[0]) == dtxt:
+                        if isinstance(t.ops[0], (ast.IsNot, ast.NotEq)):
+                            pol = True
+                        elif isinstance(t.ops[0], (ast.Is, ast.Eq)):
+                            pol = False
+                    if ghn is not None and pol is not None and is_generator(ghn.node) and inlinable(ghn.node, allow_generator=True) and sel(ghn, st.value.args[0], st):
+                        item_branch = nx.body if pol else nx.orelse
+                        other_branch = nx.orelse if pol else nx.body
+                        if item_branch and _always_leaves(item_branch):
+                            tmp = f"_{ghn.name.strip('_')}_first"
+                            while tmp in names:
+                                tmp += "_"
+                            names.add(tmp)
+                            hst = ast.Assign(targets=[ast.Name(id=tmp, ctx=ast.Store())], value=st.value.args[0])
+                            ast.fix_missing_locations(ast.copy_location(hst, st))
+                            hst._eager_ok = True  # type: ignore[attr-defined]
+                            hst._yield_body = (xname, None, item_branch)  # type: ignore[attr-defined]
+                            exp_n = _expand(view, names, hst, lambda h, c, s: sel(h, c, s))
+                            if exp_n is not None:
+                                inlined.append(ghn.qualname)
+                                changed = True
+                                out.extend(exp_n)
+                                dflt = ast.Assign(targets=[ast.Name(id=xname, ctx=ast.Store())], value=st.value.args[1])
+                                out.append(ast.fix_missing_locations(ast.copy_location(dflt, st)))
+                                out.extend(walk(list(other_branch)))
+                                skip_next = True
+                                continue
+                # `with h(..) as v: BODY` where h is a new @contextmanager generator with one `yield`: the generator's own code with
+                # `v = <yielded>; BODY` at the yield (an exception in BODY is raised at the yield, i.e. exactly there)
+                if isinstance(st, ast.With) and len(st.items) == 1 and isinstance(st.items[0].context_expr, ast.Call) and (st.items[0].optional_vars is None or isinstance(st.items[0].optional_vars, (ast.Name, ast.Tuple))):
+                    ghc = _helper_of(view, st.items[0].context_expr)
+                    if ghc is not None and any(ast.unparse(d).split(".")[-1] == "contextmanager" for d in ghc.node.decorator_list) and sel(ghc, st.items[0].context_expr, st):
+                        ys = [n for n in walk_no_nested(ghc.node) if isinstance(n, (ast.Yield, ast.YieldFrom))]
+                        if len(ys) == 1 and isinstance(ys[0], ast.Yield) and inlinable(ghc.node, allow_generator=True, allow_cm=True):
+                            tmp = f"_{ghc.name.strip('_')}_cm"
+                            while tmp in names:
+                                tmp += "_"
+                            names.add(tmp)
+                            hst = ast.Assign(targets=[ast.Name(id=tmp, ctx=ast.Store())], value=st.items[0].context_expr)
+                            ast.fix_missing_locations(ast.copy_location(hst, st))
+                            hst._eager_ok = True  # type: ignore[attr-defined]
+                            hst._cm_ok = True  # type: ignore[attr-defined]
+                            hst._yield_body = (st.items[0].optional_vars if st.items[0].optional_vars is not None else "_", None, walk(list(st.body)))  # type: ignore[attr-defined]
+                            exp_c = _expand(view, names, hst, lambda h, c, s: sel(h, c, s))
+                            if exp_c is not None:
+                                inlined.append(ghc.qualname)
+                                changed = True
+                                out.extend(exp_c)
+                                continue
                 # `for t in gen(..): BODY` over a generator helper: the helper's own loop, with `t = <yielded>; BODY` where it yields
                 if isinstance(st, ast.For) and not st.orelse and isinstance(st.iter, ast.Call) and isinstance(st.target, (ast.Name, ast.Tuple)):
                     ghf = _helper_of(view, st.iter)
